@@ -165,9 +165,10 @@ def mktmp():
 
 # properties decided by several harnesses (parts); each part writes evidence/<ID>.part-<name>.json
 PARTS = {
-    "C02": ["c02", "c02b"],
+    "C02": ["c02", "c02b", "c02c"],
     "C03": ["c03", "c03b", "c03c"],
     "C04": ["c04", "c04b"],
+    "C07": ["c07", "c07c"],
     "C10": ["c10", "c10b", "c10c"],
     "C11": ["c11", "c11b"],
     "C13": ["c13", "c13b"],
